@@ -161,6 +161,14 @@ impl<Effect, Event> Command<Effect, Event> {
             }
 
             while let Ok(task_id) = self.ready_queue.try_recv() {
+                // A task that just ran may have aborted the command. Tasks still queued behind it
+                // must not be polled any more
+                if self.was_aborted() {
+                    self.tasks.clear();
+
+                    return;
+                }
+
                 match self.run_task(task_id) {
                     TaskState::Missing => {
                         // The task has been evicted because it completed.  This can happen when
